@@ -1,4 +1,8 @@
+pub mod c06;
+pub mod c10;
 pub mod c12;
+pub mod c15;
+pub mod c16;
 pub mod dynamic;
 pub mod satcalls;
 pub mod statq;
@@ -12,9 +16,13 @@ pub fn all() -> Vec<Box<dyn Property>> {
         Box::new(statq::StatQ(statq::Mode::C03)),
         Box::new(statq::StatQ(statq::Mode::C04)),
         Box::new(statq::StatQ(statq::Mode::C07)),
+        Box::new(c06::C06),
         Box::new(dynamic::Dyn { faults: false }),
         Box::new(dynamic::Dyn { faults: true }),
+        Box::new(c10::C10),
         Box::new(c12::C12),
+        Box::new(c15::C15),
+        Box::new(c16::C16),
         Box::new(satcalls::C17),
         Box::new(satcalls::C18),
     ]
